@@ -563,6 +563,8 @@ def run(ctx):
     gauss_cov_cdf_section(ctx, D, G, rng, S)
     lognormal_history_section(ctx, D, rng, S)
     mrf_history_section(ctx, D, G, rng, S)
+    gauss_scale_section(ctx, D, rng, S)
+    gauss_structured_bigdim_section(ctx, D, rng, S, thorough)
 
     # =================================================================== 6. normalisation by quadrature
     quadrature_section(ctx, D, G, rng, S)
@@ -1277,6 +1279,224 @@ def mrf_history_section(ctx, D, G, rng, S):
                     if istat != "value" or not close(ref, ival, ORTOL):
                         fail = (ref, [istat, ival], f"after re-assigning location/scale, {fam.upper()}.logpdf is not that of the current parameters")
             verdict(ctx, key, desc, tie_ok, out[:120], [istat, ival], fail, f"{fam.upper()} history: model (current parameters) and implementation differ")
+
+
+def relclose(a, b, tol):
+    a = float(a); b = float(b)
+    if a != a or b != b:
+        return (a != a) and (b != b)
+    if math.isinf(a) or math.isinf(b):
+        return a == b
+    return abs(a - b) <= tol * (1.0 + max(abs(a), abs(b)))
+
+
+def mat_relclose(A, B, tol):
+    A = np.asarray(A, dtype=float); B = np.asarray(B, dtype=float)
+    return A.shape == B.shape and float(np.max(np.abs(A - B))) <= tol * float(np.max(np.abs(B)))
+
+
+def doc_cov(form, A):
+    """covariance the documentation assigns (A symmetric in these sections, so R R^T = R^T R)"""
+    if form == "cov":
+        return A
+    if form == "prec":
+        return np.linalg.inv(A)
+    if form == "sqrtcov":
+        return A.T @ A
+    return np.linalg.inv(A.T @ A)
+
+
+INVERSE_FORM = {"cov": "prec", "prec": "cov", "sqrtcov": "sqrtprec", "sqrtprec": "sqrtcov"}
+
+
+def gauss_scale_section(ctx, D, rng, S):
+    """Gaussians whose matrices are scaled by 1e-10 … 1e10, and nearly-diagonal matrices (off-diagonals 1e-9 / 1e-12
+    next to O(1) diagonals): every structural decision of the code (is scalar / is diagonal / is symmetric) must be
+    exact — a decision taken with a tolerance shows as a wrong log-density.  The model is exact at any scale."""
+    def tri(n, d=2.0, o=1.0):
+        return band(n, d, o)
+    cases = []
+    for form in ("cov", "prec", "sqrtcov", "sqrtprec"):
+        for sc in (1e-10, 1e-8, 1e-6, 1e6, 1e10):
+            for kind in ("dense", "sparse"):
+                n = rng.choice([2, 3, 4, 5, 6])
+                cases.append((form, kind, n, tri(n, rng.choice([2.0, 3.0]), rng.choice([1.0, -1.0, 0.5])) * sc, f"scaled:{sc:g}"))
+            n = rng.choice([2, 3, 4])
+            v = np.array([dy(rng, 0.5, 3) for _ in range(n)]) * sc
+            cases.append((form, "dense", n, np.diag(v), f"scaled-diagonal:{sc:g}"))
+            cases.append((form, "vector", n, v, f"scaled-vector:{sc:g}"))
+            cases.append((form, "scalar", n, float(v[0]), f"scaled-scalar:{sc:g}"))
+        for eps in (1e-9, 1e-12):
+            for kind in ("dense", "sparse"):
+                n = rng.choice([2, 3, 4, 5, 6])
+                A = np.diag([dy(rng, 0.5, 3) for _ in range(n)])
+                for i in range(n - 1):
+                    A[i, i + 1] = A[i + 1, i] = eps
+                cases.append((form, kind, n, A, f"nearly-diagonal:{eps:g}"))
+    lines, meta = [], []
+    for (form, kind, n, A, label) in cases:
+        if kind == "scalar":
+            Mv = [[A]]; obj = A; Afull = np.eye(n) * A
+        elif kind == "vector":
+            Mv = [A.tolist()]; obj = A.copy(); Afull = np.diag(A)
+        else:
+            Mv = A.tolist(); obj = A.copy() if kind == "dense" else spa.csr_matrix(A); Afull = A
+        C = doc_cov(form, Afull)
+        sd = np.sqrt(np.diag(C))
+        mu = np.array([dy(rng, -2, 2) for _ in range(n)])
+        x = mu + sd * np.array([dy(rng, -2, 2) for _ in range(n)])      # deviations of the order of the standard deviations
+        lines.append(f"gauss {form} {kind} {n} {qv(x)} {qv(mu)} {qm(Mv)}")
+        meta.append((form, kind, n, obj, Afull, C, mu, x, label))
+    outs = ctx.lean.drive(lines)
+    for (form, kind, n, obj, Afull, C, mu, x, label), out in zip(meta, outs):
+        desc = {"form": form, "kind": kind, "dim": n, "class": label, "M": Afull.tolist(), "mean": mu.tolist(), "x": x.tolist()}
+        ctx.case("gauss-scale", desc)
+        key = f"Gaussian:{form}:{kind}:{label.split(':')[0]}"
+        t = out.split()
+        try:
+            with quiet():
+                g = D.Gaussian(mu.copy(), **{form: obj}, geometry=n)
+        except Exception as e:  # noqa
+            g = None; cerr = type(e).__name__
+        istat, ival = call(lambda: g.logpdf(x)) if g is not None else ("raise", cerr)
+        mism, fail = [], None
+        full_sparse = kind == "sparse"       # non-diagonal scipy-sparse: no normalised logpdf without cholmod
+        if t[0] == "nologdet":
+            if istat != "raise" or g is None:
+                mism.append(f"model: logpdf refused (sparse full matrix); implementation {[istat, ival]}")
+                if istat == "value":
+                    with quiet():
+                        ref = float(sps.multivariate_normal(mu, C).logpdf(x))
+                    if not relclose(ref, ival, 1e-7):
+                        fail = (ref, ival, "a value is returned for a non-diagonal sparse matrix and it is not the documented density (treated as diagonal?)")
+            else:
+                with quiet():
+                    lu = fnum(g._logupdf(x))
+                if not relclose(-0.5 * dec(t[1]), lu, 1e-8):
+                    mism.append(f"logupdf {lu} vs model {-0.5 * dec(t[1])}")
+                ref = -0.5 * float((x - mu) @ np.linalg.solve(C, x - mu))
+                if not relclose(ref, lu, 1e-7):
+                    fail = (ref, lu, "un-normalised log-density is not -1/2 (x-mu)^T Sigma^-1 (x-mu) (a structural decision taken with a tolerance?)")
+        elif t[0] == "ok":
+            rank, detcov, lp = int(t[1]), Fraction(t[2][2:]), dec(t[4])
+            if istat != "value" or not relclose(lp, ival, 1e-8):
+                mism.append(f"logpdf {[istat, ival]} vs model {lp}")
+            if g is not None and istat == "value":
+                with quiet():
+                    S_ = _dense(g.sqrtprec); Pi = S_.T @ S_
+                if int(g.rank) != rank:
+                    mism.append(f"rank {int(g.rank)} vs model {rank}")
+                ldm = float(math.log(detcov.numerator) - math.log(detcov.denominator))
+                if not relclose(ldm, fnum(g.logdet), 1e-8):
+                    mism.append(f"logdet {fnum(g.logdet)} vs model {ldm}")
+                if len(t) > 6 and t[6] != "-":
+                    Pm = np.array([[float(Fraction(v)) for v in r.split(",")] for r in t[6].split(";")])
+                    if not mat_relclose(Pi, Pm, 1e-8):
+                        mism.append("sqrtprec^T sqrtprec is not the model's precision (relative 1e-8)")
+            with quiet():
+                ref = float(sps.multivariate_normal(mu, C).logpdf(x))
+            if istat != "value" or not relclose(ref, ival, 1e-7):
+                fail = (ref, [istat, ival], "Gaussian.logpdf is not the documented density at this scale (a structural decision taken with a tolerance?)")
+            elif kind in ("dense",):
+                # the same distribution through the inverse form
+                inv = INVERSE_FORM[form]
+                with quiet():
+                    try:
+                        v2 = fnum(D.Gaussian(mu.copy(), **{inv: np.linalg.inv(Afull)}, geometry=n).logpdf(x))
+                    except Exception as e:  # noqa
+                        v2 = f"raises {type(e).__name__}"
+                if isinstance(v2, str) or not relclose(v2, ival, 1e-7):
+                    fail = (ival, v2, f"the same Gaussian given through {inv} = inverse matrix has a different log-density")
+        else:
+            mism.append(f"model answer {out[:40]} for a valid specification")
+        verdict(ctx, key, desc, not mism, out[:120], mism, fail, "Gaussian at extreme scale: model and implementation differ: " + "; ".join(mism))
+
+
+def gauss_structured_bigdim_section(ctx, D, rng, S, thorough):
+    """dim > MIN_DIM_SPARSE, dense NON-banded matrices whose eigenvector matrices contain exact zeros: block-diagonal of
+    two dense SPD blocks, identity block + dense block, a permutation of a block structure, identity + low rank on a
+    subset of the coordinates; through prec, cov, sqrtcov, sqrtprec."""
+    nrs = np.random.RandomState(ctx.seed + 4040)
+
+    def spd(k):
+        A = nrs.randint(-2, 3, size=(k, k)) / 2.0
+        return A @ A.T + np.eye(k) * 2
+
+    def structure(kind, n):
+        M = np.zeros((n, n))
+        if kind == "two-blocks":
+            k = n // 2; M[:k, :k] = spd(k); M[k:, k:] = spd(n - k)
+        elif kind == "identity+block":
+            k = n - 30; M[:k, :k] = np.eye(k) * float(nrs.choice([1.0, 2.0, 0.5])); M[k:, k:] = spd(30)
+        elif kind == "permuted-blocks":
+            k = n // 3; M[:k, :k] = spd(k); M[k:, k:] = spd(n - k)
+            perm = nrs.permutation(n); M = M[np.ix_(perm, perm)]
+        else:  # identity + low rank supported on the first 30 coordinates
+            V = np.zeros((n, 2)); V[:30, :] = nrs.randint(-2, 3, size=(30, 2)) / 2.0
+            M = np.eye(n) + V @ V.T
+        return M
+
+    kinds = ["two-blocks", "identity+block", "permuted-blocks", "identity+lowrank"]
+    cases = []
+    for form in ("prec", "cov", "sqrtcov", "sqrtprec"):
+        for kind in kinds:
+            for _ in range(1 if not thorough else 3):
+                n = int(nrs.choice([76, 80, 84, 90]))
+                cases.append((form, kind, n, structure(kind, n)))
+    lines, meta = [], []
+    for i, (form, kind, n, M) in enumerate(cases):
+        mu = nrs.randint(-4, 5, size=n) / 2.0
+        x = mu + nrs.randint(-4, 5, size=n) / 4.0
+        use_model = form == "prec" or (i % 4 == (ctx.seed + {"cov": 0, "sqrtcov": 1, "sqrtprec": 2}.get(form, 0)) % 4) or thorough
+        if use_model:
+            lines.append(f"gauss {form} dense {n} {qv(x)} {qv(mu)} {qm(M.tolist())}")
+        meta.append((form, kind, n, M, mu, x, use_model))
+    outs = iter(ctx.lean.drive(lines))
+    for (form, kind, n, M, mu, x, use_model) in meta:
+        desc = {"form": form, "structure": kind, "dim": n, "seed_stream": ctx.seed + 4040}
+        ctx.case("gauss-structured-dim>75", desc)
+        key = f"Gaussian:{form}:dense:dim>75:{kind}"
+        out = next(outs) if use_model else None
+        C = doc_cov(form, M)
+        Pref = np.linalg.inv(C)
+        sign, ld = np.linalg.slogdet(C)
+        mism, fail = [], None
+        try:
+            with quiet():
+                g = D.Gaussian(mu.copy(), **{form: M.copy()})
+        except Exception as e:  # noqa
+            g = None; cerr = type(e).__name__
+        istat, ival = call(lambda: g.logpdf(x)) if g is not None else ("raise", cerr)
+        if out is not None:
+            t = out.split()
+            if t[0] != "ok":
+                mism.append(f"model answer {out[:40]} for an SPD specification")
+            else:
+                if istat != "value" or not relclose(dec(t[4]), ival, 1e-8):
+                    mism.append(f"logpdf {[istat, ival]} vs model {dec(t[4])}")
+                if g is not None and int(g.rank) != int(t[1]):
+                    mism.append(f"rank {int(g.rank)} vs model {t[1]}")
+                dc = Fraction(t[2][2:])
+                if g is not None and not relclose(math.log(dc.numerator) - math.log(dc.denominator), fnum(g.logdet), 1e-8):
+                    mism.append(f"logdet {fnum(g.logdet)} vs model")
+        # float64 reference (stated tolerances): precision 1e-8 relative, log-density 1e-8, rank exact, logdet 1e-8
+        if g is None:
+            fail = ("a Gaussian", f"raises {cerr}", "an SPD specification is refused")
+        else:
+            with quiet():
+                S_ = _dense(g.sqrtprec); Pi = S_.T @ S_
+                ref = float(sps.multivariate_normal(mu, C).logpdf(x))
+            if not mat_relclose(Pi, Pref, 1e-8):
+                fail = ("sqrtprec^T sqrtprec = precision", f"max deviation {float(np.max(np.abs(Pi - Pref))):.3g}",
+                        "the stored square-root precision is not a square root of the precision (dim > 75 eigen-decomposition branch)")
+            elif istat != "value" or not relclose(ref, ival, 1e-8):
+                fail = (ref, [istat, ival], "Gaussian.logpdf is not the documented density (dim > 75 branch)")
+            elif int(g.rank) != n:
+                fail = (n, int(g.rank), "rank of a non-singular covariance is not the dimension")
+            elif not relclose(ld, fnum(g.logdet), 1e-8):
+                fail = (float(ld), fnum(g.logdet), "log-determinant of the covariance is wrong")
+        verdict(ctx, key, desc, not mism, (out or "float64 reference only")[:100], mism, fail,
+                "structured dense Gaussian, dim > 75: model and implementation differ: " + "; ".join(mism))
 
 
 def quadrature_section(ctx, D, G, rng, S):
